@@ -12,6 +12,7 @@ ops of the binary byte→token layer (C08, and the binary clauses of C09 / C19 /
   bfits <cap> <hex>                  the hypothesis `Fits cap data` of the streaming theorems (executable form)
   blexid <hex>                       the same through next_id + read_* primitives
   bpeek <hex>                        `<peek_id|none> <peek_token|none>`
+  bwritefail <toks> <k>              Token::write into a writer that fails after k bytes: `<bytes written> <ok|err:io>`
   bwrite <toks>                      Token::write of every token: hex
   bstream <cap> <sched> <hex>        TokenReader.next until end/error: `<toks> <outcome> <pos> <delivered>`
   bread <cap> <sched> <hex>          the same through `read()` (always ends in an error)
@@ -288,6 +289,12 @@ def handle : Handler
       let b := match l.peekToken with | some t => showTok t | none => "none"
       s!"{a} {b}"
   | ["bwrite", ts] => (parseToks ts).map fun toks => toHex (toks.flatMap Token.write)
+  | ["bwritefail", ts, kw] => do
+      let toks ← parseToks ts
+      let k ← kw.toNat?
+      -- a writer that takes k bytes and then fails: `write_all` delivers the prefix, `?` stops
+      let full := toks.flatMap Token.write
+      pure s!"{toHex (full.take k)} {if k < full.length then "err:io" else "ok"}"
   | ["bstream", capw, sw, h] => do
       let d ← parseHex h
       let sched ← parseSched sw
